@@ -589,6 +589,21 @@ def run(chk: Check) -> None:
     hi = 0x3100 if quick else 0x30000
     sf_cases += [chr(c) for c in range(hi)] + ["a" + chr(c) + "b" for c in range(0, hi, 1 if not quick else 7)]
     sf_cases += [chr(c) for c in (0xFF0E, 0xFF0F, 0xFF3C, 0xFE52, 0xFE68, 0x1F600, 0x10FFFF, 0xE0020, 0xDFFF)]
+    # long names: around the usual 255 limit of file systems and far beyond it, with strippable characters at the positions a
+    # length cut would expose, and names whose length changes under NFKD / the ASCII filter / blank joining
+    for L in range(250, 301, 1 if not quick else 3):
+        sf_cases.append("a" * L)
+        sf_cases.append("a" * (L - 4) + ".txt")
+    for pos in range(250, 260):
+        for run in (".", "_", "-", "..", "._", "_.", "...", "-.", ".-"):
+            sf_cases.append("a" * pos + run + "b" * (300 - pos))
+            sf_cases.append("a" * pos + run + "b")
+    sf_cases += ["a" * 1000, "a" * 254 + "." + "b" * 1000, ("ab." * 400), ("x_" * 700), "." * 300 + "a" * 300 + "." * 300,
+                 "\u00e9" * 300, "\ufb01" * 150, "\uff41" * 254 + "\uff0e" + "\uff42" * 50, "a " * 150, ("a\t.\t") * 90,
+                 "\u00e9" * 254 + "." + "\u00e9" * 10, "\U0001f600" * 300 + "a" * 254 + "_" + "b", "a" * 253 + "\u2024\u2024" + "b" * 10]
+    for _ in range(150 if quick else 3000):
+        n = rng.randint(240, 320) if rng.random() < 0.8 else rng.randint(900, 1400)
+        sf_cases.append("".join(rng.choice(["a", "b", "Z", "0", ".", "_", "-", " ", "\u00e9", "\uff0e", "/", "\ufb01"]) for _ in range(n)))
     for _ in range(6000 if quick else 120000):
         sf_cases.append(_gen_sf(rng))
     allowed = re.compile(r"[A-Za-z0-9_.-]*\Z")
